@@ -299,3 +299,30 @@ Proof.
       * destruct (net_forward_close g T n HV Hn Hne Hs) as [_ [_ [HK _]]]. exact HK.
       * intros k. apply dict_close_0_get. now apply (net_forward_close g T n HV Hn Hne Hs).
 Qed.
+
+Theorem network_coverage :
+  forall (g : net) (T : nat), valid_net T g ->
+  forall (i t : nat) (c : Z), clean_for g i t c -> forall cnt : counter,
+  let M := get_ejk g (count_edge_types cnt (edges g)) i t in
+  (forall a, In a (xkeys_i g i) -> exists b, In b (xkeys_i g i) /\ dmem M (a ++ b) = true) /\
+  (forall k a, In k (dkeys M) -> firstn T k = a -> In (skipn T k) (xkeys_i g i)).
+Proof.
+  intros g T HV i t c HC cnt M. split.
+  - exact (xkey_has_partner g T HV i t c HC cnt).
+  - exact (xkeys_cover g T HV i t c HC cnt).
+Qed.
+
+Theorem network_full_passes_checker :
+  forall (g : net) (names cs : list nat),
+    valid_net (length names) g -> NoDup names -> jds g <> [] ->
+    Forall (fun k => Forall (fun x => (0 <= x)%Z) k) (jds g) ->
+    length cs = length names ->
+    (forall i name c, nth_error names i = Some name -> nth_error cs i = Some c ->
+                      clean_for g i name (Z.of_nat c) /\ col_sum g i <> 0%Z) ->
+    exists rows fwd, net_rows g names = Ok rows /\ net_forward g = Ok fwd /\
+                     check_networkb 0 g names cs rows fwd = true.
+Proof.
+  intros g names cs H1 H2 H3 H4 H5 H6.
+  destruct (network_full g names cs H1 H2 H3 H4 H5 H6) as [rows [fwd [A [B C]]]].
+  exists rows, fwd. split; [exact A|]. split; [exact B|]. now apply check_networkb_iff.
+Qed.
